@@ -282,16 +282,28 @@ Definition lpull (g : gridspec) (tr : option relay) (in_u : uspec) (s : lstate) 
 (** * Op sequences on one link *)
 
 Inductive lop := LPush (t : Z) (p : payload) | LPull (k : nat) (t : Z).   (* k: the pulling consumer *)
-Inductive lobs := OPush (r : option ecls) | OPull (r : pull_res).
+Inductive lobs := OPush (r : option ecls) | OPull (r : pull_res)
+  | OExchErr.   (* FinamMetaDataError during the info exchange: the link is not established, no data crosses *)
 
 (** one output, consumers 0..n-1 (final inputs, directly linked or behind pass-through adapters), each with its units *)
-Record cons := mkCo { co_units : uspec; co_relay : option relay }.
+(** [co_nogrid]: the consumer declares its own [NoGrid] data shape (otherwise it uses the producer's grid object) *)
+Record cons := mkCo { co_units : uspec; co_relay : option relay; co_nogrid : option (list (option nat)) }.
+
+(** [NoGrid.compatible_with] (grid_spec.py 71-87): [isinstance(other, NoGrid) and self.data_shape == other.data_shape] -
+    plain equality, a flexible axis (-1) only matches a flexible axis.  [Info.accepts] uses it on both ends. *)
+Definition nogrid_compatible (a b : list (option nat)) : bool := list_eqb (option_eqb Nat.eqb) a b.
+Definition cons_accepted (g : gridspec) (c : cons) : bool :=
+  match co_nogrid c with
+  | None => true
+  | Some dsh' => match g with GNo dsh => nogrid_compatible dsh dsh' | GStruct _ _ => false end
+  end.
 Record lcfg := mkC { c_out : info; c_cons : list cons }.
-Definition cons_of (c : lcfg) (k : nat) : cons := nth k (c_cons c) (mkCo (i_units (c_out c)) None).
+Definition cons_of (c : lcfg) (k : nat) : cons := nth k (c_cons c) (mkCo (i_units (c_out c)) None None).
 Definition cons_grid (c : lcfg) (k : nat) : gridspec :=
-  match co_relay (cons_of c k) with
-  | Some r => GStruct (lshape (r_dims r) (r_dst r)) (grid_orderF (i_grid (c_out c)))
-  | None => i_grid (c_out c)
+  match co_nogrid (cons_of c k), co_relay (cons_of c k) with
+  | Some dsh', _ => GNo dsh'
+  | None, Some r => GStruct (lshape (r_dims r) (r_dst r)) (grid_orderF (i_grid (c_out c)))
+  | None, None => i_grid (c_out c)
   end.
 
 Definition lstep (c : lcfg) (s : lstate) (o : lop) : lstate * lobs :=
@@ -313,7 +325,10 @@ Definition linit (c : lcfg) : lstate := OutputM.init (seq 0 (length (c_cons c)))
 
 Definition c08_case : Type := lcfg * list lop.
 Definition c08_obs : Type := list lobs.
-Definition c08_model (c : c08_case) : c08_obs := lrun (fst c) (linit (fst c)) (snd c).
+Definition c08_model (c : c08_case) : c08_obs :=
+  if forallb (cons_accepted (i_grid (c_out (fst c)))) (c_cons (fst c))
+  then lrun (fst c) (linit (fst c)) (snd c)
+  else [OExchErr].
 
 (** floats of the implementation against exact rationals of the model:
     |m - o| <= 2^-40 * max(1, |m|) *)
@@ -352,6 +367,7 @@ Definition lobs_eqb (m o : lobs) : bool :=
   | OPull RTime, OPull RTime => true
   | OPull RNoData, OPull RNoData => true
   | OPull RData, OPull RData => true
+  | OExchErr, OExchErr => true
   | _, _ => false
   end.
 
